@@ -250,3 +250,9 @@ Definition nmismatches (cs : list ncase) : list N := failing (map ncase_ok cs).
 Definition max_tx_in : N := 281474976710655 / 41 + 1.
 Definition tx_decode_alloc_as_found (declared_inputs avail : N) : option N :=
   if max_tx_in <? declared_inputs then None (* rejected *) else Some (declared_inputs * (64 + 8)).
+
+(* ---------------------------------------------------------------------------------------- *)
+(* DiscardInput (messages.go): n bytes are dropped in whole chunks plus a remainder.  Bytes taken
+   off the connection when asked to discard n: *)
+Definition discard_input (chunk n : N) : N :=
+  (if 0 <? n then (n / chunk) * chunk else 0) + (if 0 <? n mod chunk then n mod chunk else 0).
